@@ -19,7 +19,7 @@ RULE = ('generated composers (1-3 timed processes, optional nested sub-compartme
         'keys; non-trivial = embedding depth >=1 or >=3 merges, and a nested sub-compartment or >=2 processes; '
         'distinct = distinct case spec')
 PLAN = {'quick': {'n': 2500, 'min_cases': 200}, 'thorough': {'n': 30000, 'min_cases': 3000}}
-REQUIRED_ORACLES = ['embed_structure', 'embed_run', 'merged_in_unchanged', 'merge_is_union', 'entry_points_same_run',
+REQUIRED_ORACLES = ['fresh_composite_pristine', 'embed_structure', 'embed_run', 'merged_in_unchanged', 'merge_is_union', 'entry_points_same_run',
                     'override_reaches_named_only', 'metacomposer_overlap']
 ANCHORS = ['vivarium.core.composer:Composer.generate', 'vivarium.core.process:Process.generate',
            'vivarium.core.process:assoc_in', 'vivarium.core.composer:Composite.merge',
@@ -43,7 +43,7 @@ def gen(r, tier, i):
             ops.append({'form': 'loose', 'path': p, 'tag': 'l%d' % len(ops), 'state': r.random() < 0.5})
     return {'k': r.randint(1, 3), 'nest': r.random() < 0.6, 'deriver': r.random() < 0.4,
             'path': [r.choice(['x', 'y', 'z']) for _ in range(r.randint(0, 3))],
-            'ops': ops, 'init_n': r.randint(0, 9),
+            'ops': ops, 'init_n': r.randint(0, 9), 'host': r.choice(['empty', 'generated']),
             'override': {'target': r.choice(['p0', 's', 'sub.q']), 'via': r.choice(['composer', 'process', 'merge', 'merge']),
                          'late': r.random() < 0.5},
             'meta_overlap': r.random() < 0.5}
@@ -190,9 +190,15 @@ def run(spec):
         # merge sequences
         T = C(cfg).generate()
         T0 = snap(T)
-        M = Composite({})
+        pristine = {k: shape(T[k], Process) for k in ('processes', 'steps', 'flow', 'topology', 'state')}
+        if spec.get('host') == 'generated':
+            # the receiving composite is itself generated by a composer (it has no 'state' of its own)
+            M = C(dict(cfg, k=1, nest=False, deriver=False)).generate(path=('host',))
+            model = {k: copy.deepcopy(shape(M[k], Process)) for k in ('processes', 'steps', 'flow', 'topology', 'state')}
+        else:
+            M = Composite({})
+            model = {k: {} for k in ('processes', 'steps', 'flow', 'topology', 'state')}
         loose_list = []
-        model = {k: {} for k in ('processes', 'steps', 'flow', 'topology', 'state')}
         merged_in = []
         for op in spec['ops']:
             p = tuple(op['path'])
@@ -233,6 +239,12 @@ def run(spec):
                     lambda: ('merged %s is not the union (later wins) of what was merged in' % key,
                              repr(shape(M[key], Process))[:300], repr(model[key])[:300]))
 
+        # a composite generated after all this merging is the same as one generated before
+        fresh = C(cfg).generate()
+        V.check('fresh_composite_pristine',
+                {k: shape(fresh[k], Process) for k in pristine} == pristine and not fresh['state'] and not Composite({})['state'],
+                lambda: ('a composite generated after merges into other composites differs from one generated before',
+                         repr(shape(fresh['state'], Process))[:200], repr(Composite({})['state'])[:100]))
         # schema overrides reach exactly the named process / port
         override_case(V, spec, P, St, C, cfg)
 
